@@ -537,11 +537,15 @@ var (
 )
 
 func c09SingleFaults(starts []int, lens []int) []c09Fault {
+	return c09Faults(starts, lens, []string{"io", "garbage", "empty", "blank", "nan", "range", "nostart"}, []string{"refuse", "ignore", "nostart"})
+}
+
+func c09Faults(starts []int, lens []int, readKinds, writeKinds []string) []c09Fault {
 	var out []c09Fault
 	for _, comp := range []string{"sensorRead", "rpmRead", "pwmRead", "pwmWrite", "modeWrite"} {
-		kinds := []string{"io", "garbage", "empty", "blank", "nan", "range", "nostart"}
+		kinds := readKinds
 		if comp == "pwmWrite" {
-			kinds = []string{"refuse", "ignore", "nostart"}
+			kinds = writeKinds
 		} else if comp == "modeWrite" {
 			kinds = []string{"refuse", "ignore"}
 		}
@@ -619,7 +623,8 @@ func TestC09(t *testing.T) {
 		}
 	}
 	// pairs of faults
-	pairBase := c09SingleFaults([]int{0, 2, 7}, []int{1, 0})
+	// pairs: one representative per fault family (failing read, unparsable content, absurd value | refused, ignored write)
+	pairBase := c09Faults([]int{0, 2, 7}, []int{1, 0}, []string{"io", "blank", "range"}, []string{"refuse", "ignore"})
 	x := uint64(seed)
 	nPairs := 300
 	if thorough {
